@@ -1,5 +1,5 @@
 \* the repaired design: the property holds in every reachable state
-CONSTANTS MaxBlocks = 3  MaxTx = 2  MaxOff = 3  QueryCtxNotPrev = FALSE  SimulateRunsMsgOnRoot = FALSE
+CONSTANTS MaxBlocks = 3  MaxTx = 2  MaxOff = 3  QueryCtxNotPrev = FALSE  SimulateRunsMsgOnRoot = FALSE  OffChainMayTrustSig = FALSE
 INIT Init
 NEXT Next
 VIEW view
